@@ -242,7 +242,20 @@ def run_shard(spec, ctx):
             s = gen_string(rng)
             ctx.count('evaluations')
             for keep in (False, True):
-                U.split_lines(s, keep)
+                r = U.split_lines(s, keep)
+                if i % 3 == 0:
+                    # a caller that edits the list it was given (docstring clean-up style): the next caller must not see it
+                    try:
+                        snap = list(r)
+                        r.append('<edited by the caller>')
+                        del r[0]
+                        r2 = U.split_lines(s, keep)       # (the contract compares r2 with the reference as well)
+                        ctx.count('results_edited_by_the_caller')
+                        if r2 != snap or r2 is r:
+                            ctx.violation('split_lines_aliased', 'split_lines(%r, keepends=%s) after the caller edited the previous result: %r, before %r' % (
+                                s[:40], keep, r2[:5], snap[:5]), {'string': s, 'keepends': keep})
+                    except (AttributeError, TypeError):
+                        ctx.count('results_immutable')        # a tuple would be fine too
             if len(set(s) & set(ALPHA[:10])) >= 2:
                 ctx.nontriv('s' + s)
             if i % 20 == 0:
@@ -270,7 +283,16 @@ def replay(w, ctx):
         except Exception:
             pass
     else:
-        U.split_lines(w['string'], w.get('keepends', False))
+        r = U.split_lines(w['string'], w.get('keepends', False))
+        snap = list(r)
+        try:
+            r.append('<edited by the caller>')
+            del r[0]
+        except (AttributeError, TypeError):
+            pass
+        r2 = U.split_lines(w['string'], w.get('keepends', False))
+        if r2 != snap or r2 is r:
+            ctx.violation('split_lines_aliased', 'split_lines after the caller edited the previous result: %r, before %r' % (r2[:5], snap[:5]), w)
     _state['active'] = False
 
 
@@ -289,7 +311,7 @@ def shards(tier, seed):
 
 
 def floors(tier):
-    return {'evaluations': 100000, 'decodings_judged': 20000, 'contract_evals:split_lines': 200000, 'exhaustive_strings_length_4': 19 ** 4,
+    return {'evaluations': 100000, 'decodings_judged': 20000, 'contract_evals:split_lines': 200000, 'results_edited_by_the_caller': 2000, 'exhaustive_strings_length_4': 19 ** 4,
             'corpus_files_as_bytes': 200, 'tree_line_count_checks': 1000, 'files_read_by_path': 500}
 
 
